@@ -350,6 +350,31 @@ def battery(c, obj, psi_full, viol, tag):
                 cmp("calc_bond_entropy", be[node], float(-(p * np.log(p)).sum()), 1e-7)
     except Exception as e:
         add(viol, f"C11:exception:{type(e).__name__}:bond-entropy", f"{tag}: {e!r}")
+    # observe -> modify in place -> observe again: whatever the first round of observables left behind (cached environments ...) must
+    # not survive an in-place rescaling of the very same object
+    saved = [(np.array(n.tensor, copy=True), np.array(n.qn, copy=True)) for n in obj.node_list]
+    saved_coeff = obj.coeff
+    try:
+        for how, fn in (("scale(-2.5,inplace)", lambda: obj.scale(-2.5, inplace=True)), ("normalize(ttns_only)", lambda: obj.normalize("ttns_only")),
+                        ("scale(0.5,inplace)", lambda: obj.scale(0.5, inplace=True))):
+            fn()
+            psi2 = TR.dense_state(obj, c.order) / obj.coeff
+            nrm = np.linalg.norm(psi2)
+            r1 = obj.calc_1site_rdm()
+            for i in range(N):
+                cmp(f"calc_1site_rdm:after-{how}", r1[i], dense_rdm(psi2, dims, node_phys[i]))
+            rd = obj.calc_1dof_rdm()
+            for ib, d in dof_of:
+                if d in rd:
+                    cmp(f"calc_1dof_rdm:after-{how}", rd[d], dense_rdm(psi2, dims, [ib]))
+            cmp(f"expectation(TTNO):after-{how}", obj.expectation(c.H), np.vdot(psi2, c.Hd @ psi2))
+            cmp(f"ttns_norm:after-{how}", obj.ttns_norm, nrm)
+    except Exception as e:
+        add(viol, f"C11:exception:{type(e).__name__}:observe-after-inplace-rescale", f"{tag}: {e!r}")
+    for n, (t_, q_) in zip(obj.node_list, saved):        # the caller goes on comparing this object with its dense shadow
+        n.tensor = t_
+        n.qn = q_
+    obj.coeff = saved_coeff
     return n_checked
 
 
